@@ -687,6 +687,14 @@ class SObj(SV):
 
 def pack(v, typ=None):
     """z3 term of a symbolic value, coerced to typ's sort when given"""
+    if v is NONE and typ is TVal:
+        return z3.Const('none_val', ValS)
+    if isinstance(v, SKey) and typ is TVal:
+        return z3.Function('key_as_val', KeyS, ValS)(v.t)
+    if isinstance(v, SNum) and typ is TVal:
+        return z3.Function('num_as_val', z3.RealSort(), ValS)(v.real())
+    if isinstance(v, SDict) and typ is TVal:
+        return z3.Function('dict_as_val_' + v.typ.name, v.typ.sort(), ValS)(v.get())
     if isinstance(v, SNum):
         if typ is TNumK or (typ is None and v.np is not None):
             return TNumK.sort().constructor(0)(v.real(), v.np if v.np is not None else z3.BoolVal(False),
@@ -696,12 +704,6 @@ def pack(v, typ=None):
         if typ is TInt and not v.is_int:
             raise TypeError("real where int expected")
         return v.t
-    if v is NONE and typ is TVal:
-        return z3.Const('none_val', ValS)
-    if isinstance(v, SKey) and typ is TVal:
-        return z3.Function('key_as_val', KeyS, ValS)(v.t)
-    if isinstance(v, SNum) and typ is TVal:
-        return z3.Function('num_as_val', z3.RealSort(), ValS)(v.real())
     if isinstance(v, SBool) and typ is TNum:
         return z3.If(v.t, z3.RealVal(1), z3.RealVal(0))
     return v.t
